@@ -48,15 +48,16 @@ impl In {
 	/// fixed-point JSON for the trace specs
 	pub fn fx(&self) -> Value {
 		match self {
-			In::S(x) => fx(*x),
-			In::P(a, b) => json!([fx(*a), fx(*b)]),
+			// what the method actually receives: the value rounded to ValueType (f32 builds)
+			In::S(x) => fx(*x as ValueType as f64),
+			In::P(a, b) => json!([fx(*a as ValueType as f64), fx(*b as ValueType as f64)]),
 			In::C(c) => candle_fx(c),
 		}
 	}
 	pub fn bits(&self) -> Value {
 		match self {
-			In::S(x) => json!(bits(*x)),
-			In::P(a, b) => json!([bits(*a), bits(*b)]),
+			In::S(x) => json!(bits(*x as ValueType as f64)),
+			In::P(a, b) => json!([bits(*a as ValueType as f64), bits(*b as ValueType as f64)]),
 			In::C(c) => json!([bits(c.open as f64), bits(c.high as f64), bits(c.low as f64), bits(c.close as f64), bits(c.volume as f64)]),
 		}
 	}
